@@ -15,6 +15,7 @@ from kawin.precipitation.KWNEuler import PrecipitateModel
 from kawin.precipitation.KWNBase import PrecipitateBase
 from kawin.precipitation.PopulationBalance import PopulationBalanceModel as PBM
 from kawin.solver.Solver import DESolver, SolverType
+from harness import c08 as _c08
 
 
 def moments(ctx, nph=1, nel=1, ncls=2, regrid=False):
@@ -106,10 +107,67 @@ def update_truncates(ctx, ncls=3):
                   ctx.any([ctx.eq(pbm.PSD[i], given[i]), ctx.all([ctx.eq(pbm.PSD[i], 0.0), ctx.lt(given[i], 1.0)])]))
 
 
+def pbm_per_phase(ctx, nph=2, how="all", default=False):
+    """each phase's statistics are moments of THAT phase's distribution: after the real setPBMParameters (for all phases at once, or
+    phase by phase) -- or with the default grids of the constructor -- writing the distribution / extending the grid of one phase leaves
+    the distributions and grids of the other phases alone"""
+    from harness.kwn_common import PH, EL
+    m = PrecipitateModel(phases=PH[:nph], elements=EL[:1])
+    if not default:
+        if how == "all":
+            m.setPBMParameters(1.0, 2.0, 4, 2, 8, True, None)
+        elif how == "named_all":
+            m.setPBMParameters(1.0, 2.0, 4, 2, 8, True, "all")
+        else:
+            for p in range(nph):
+                m.setPBMParameters(1.0, 2.0, 4, 2, 8, True, PH[p])
+    nb = m.PBM[0].bins
+    xs = []
+    for p in range(nph):
+        x = ctx.reals("N_%s" % PH[p], m.PBM[p].bins, (1.5, 4.0))
+        for i in range(len(x)):
+            ctx.assume(x[i] > 1)
+        xs.append(x)
+    t = ctx.real("t", (0.1, 1.0))
+    for p in range(nph):
+        m.PBM[p].UpdatePBMEuler(t, xs[p])
+    for p in range(nph):
+        ctx.prove("phase keeps the distribution written to it, whatever was written to the other phases afterwards",
+                  len(m.PBM[p].PSD) == len(xs[p]) and bool(ctx.all([ctx.eq(m.PBM[p].PSD[i], xs[p][i]) for i in range(len(xs[p]))])))
+        ctx.prove("number density of the phase is the zeroth moment of its own distribution",
+                  ctx.eq(m.PBM[p].ZeroMoment(), sum(xs[p][i] for i in range(len(xs[p])))))
+    m.PBM[0].addSizeClasses(1)
+    for p in range(1, nph):
+        ctx.prove("extending the grid of one phase leaves the grid of the others alone", m.PBM[p].bins == nb and len(m.PBM[p].PSD) == nb and len(m.PBM[p].PSDbounds) == nb + 1)
+
+
+def remesh_count(ctx, n=2, nb=2):
+    """a step on which the size classes are re-meshed (real changeSizeClasses on an arbitrary valid state, new grid covering the old one):
+    the zeroth moment -- the reported number density -- does not increase (there is no nucleation in a re-mesh)"""
+    pbm, b0, w, psd = _c08.mk_state(ctx, n)
+    cmin = ctx.real("cMin", (0.3, 1.0)); cmax = ctx.real("cMax", (1.5, 3.0))
+    ctx.assume(cmin > 0); ctx.assume(cmin <= b0); ctx.assume(cmax >= b0 + n * w)
+    before = sum(psd[i] for i in range(n))
+    pbm.changeSizeClasses(cmin, cmax, nb)
+    after = sum(pbm.PSD[i] for i in range(pbm.bins))
+    ctx.prove("number density does not increase on a re-mesh that covers the populated range", ctx.le(after, before))
+
+
 _F = [PrecipitateModel._calcMassBalance, PBM.ZeroMomentFromN, PBM.MomentFromN, PBM.ThirdMomentFromN, PBM.WeightedMomentFromN, PBM.getdXdtEuler,
       PBM.correctdXdtEuler, PBM.UpdatePBMEuler, PrecipitateModel._getdXdt, PrecipitateModel._correctdXdt, PrecipitateBase.correctdXdt, DESolver._updateX, DESolver._getdXdt]
 _A = ["real arithmetic", "populations >= 0, uniform grids, molar volumes and volume factor > 0", "spherical shape factor (aspect ratio 1)"]
 HARNESSES = [
+    Harness("C02.pbm_per_phase", pbm_per_phase, functions=[PrecipitateModel.setPBMParameters, PrecipitateModel._resetArrays, PBM.UpdatePBMEuler, PBM.addSizeClasses, PBM.ZeroMoment],
+            assumptions=["populations > 1 (nothing is truncated)"], bounds={"phases": "nph"},
+            params={"quick": [{"nph": 2, "how": "all"}, {"nph": 2, "how": "each"}, {"nph": 2, "default": True}],
+                    "thorough": [{"nph": 3, "how": h} for h in ("all", "named_all", "each")] + [{"nph": 3, "default": True}]}),
+    Harness("C02.fixed_grid_extends", _c08.op_adjust, functions=[PBM.adjustSizeClassesEuler, PBM.addSizeClasses],
+            assumptions=["as C08.op_adjust with adaptive binning off: a filled last class still gets classes appended, so growing particles do not leave through the top of the grid (the number density would fall without dissolution)"],
+            opts={"ob_timeout": 30.0}, params={"quick": [{"n": 3, "orig": 4, "minb": 2, "maxb": 3, "adaptive": False, "diss": True}, {"n": 2, "orig": 4, "minb": 2, "maxb": 3, "adaptive": False, "diss": False}],
+                                              "thorough": [{"n": 4, "orig": 8, "minb": 2, "maxb": 3, "adaptive": False, "diss": True}]}),
+    Harness("C02.remesh_count", remesh_count, functions=[PBM.changeSizeClasses, PBM.ThirdMoment],
+            assumptions=["arbitrary valid state (uniform grid, populations >= 0); the new grid covers the old one"], opts={"ob_timeout": 40.0, "max_paths": 200},
+            budget={"quick": 90.0, "thorough": 600.0}, params={"quick": [{"n": 2, "nb": 2}], "thorough": [{"n": 3, "nb": 2}, {"n": 2, "nb": 3}]}),
     Harness("C02.moments", moments, functions=_F, assumptions=_A, bounds={"phases": "nph", "classes": "ncls"}, opts={"ob_timeout": 40.0},
             params={"quick": [{"nph": 1, "nel": 1, "ncls": 2}, {"nph": 2, "nel": 1, "ncls": 3}, {"nph": 1, "nel": 1, "ncls": 2, "regrid": True}],
                     "thorough": [{"nph": 2, "nel": 2, "ncls": 4}, {"nph": 3, "nel": 1, "ncls": 3}, {"nph": 2, "nel": 1, "ncls": 3, "regrid": True}]}),
